@@ -5,6 +5,11 @@
 (* With Emit = TRUE completed behaviours are printed for replay into lopdf's object parser.     *)
 EXTENDS SyntaxProducer, TLC, Json
 
+\* TLC orders record fields by first mention while parsing (root module first): the kind field `k` must come
+\* before the payload fields so that object values of different kinds are unequal without their payloads
+\* ever being compared (a function-valued `v` against a sequence-valued one is a TLC evaluation error).
+KindFirst_MC_Syntax(o) == <<o.k, o.neg, o.v, o.w>>
+
 CONSTANTS Universe,    \* "atoms" | "nested"
           Emit
 
